@@ -263,6 +263,29 @@ let c09 (h : shist) : string list =
         hits := (Printf.sprintf "c09:not-acquired instance 0 wants %d partitions from t=%d on (no faults, peers gone) but never counted more than %d by %d" want !t0 !best deadline) :: !hits
     end
   end;
+  (* an instance that needs more must try the partitions it does not hold, not one of them over and over: with at
+     least two locally free partitions the choice is random, so 45 consecutive requests for the same partition that
+     all come back empty cannot be luck (2^-44) *)
+  Array.iteri (fun k (_ : sinst) ->
+      let counted = Hashtbl.create 8 and provisioned = ref 0 in
+      let streak_p = ref (-1) and streak_n = ref 0 and minfree = ref max_int in
+      List.iter (fun ln ->
+          if ln.inst = k then
+            match ln.w with
+            | ["lm"; "create"; n] -> provisioned := ios n; streak_n := 0; streak_p := -1;
+                Hashtbl.iter (fun p _ -> if p >= ios n then Hashtbl.remove counted p) (Hashtbl.copy counted)
+            | ["ev"; "allocated"; p] -> Hashtbl.replace counted (ios p) (); streak_n := 0; streak_p := -1
+            | ["ev"; "released"; p] -> Hashtbl.remove counted (ios p)
+            | ["lm"; "leaseret"; p; lt] ->
+                if ios lt > 0 then (streak_n := 0; streak_p := -1)
+                else begin
+                  let free = !provisioned - Hashtbl.length counted in
+                  if ios p = !streak_p then (incr streak_n; minfree := min !minfree free)
+                  else (streak_p := ios p; streak_n := 1; minfree := free);
+                  if !streak_n = 45 && !minfree >= 2 then
+                    hits := (Printf.sprintf "c09:stuck-on-one-partition inst=%d t=%d 45 consecutive requests for partition %d came back empty although at least %d partitions are locally free" k ln.t (ios p) !minfree) :: !hits
+                end
+            | _ -> ()) h.lines) h.insts;
   (* faults never stop the loop or corrupt the figure: covered by c06 (figure) and the replay (loop keeps going) *)
   List.rev !hits @ c06 h
 
